@@ -159,7 +159,8 @@ fn synth(seed: u64) -> Synth {
     let mut r = crate::gen::Rng(seed ^ 0xc17);
     let (cw, tw) = (1 + r.below(3) as u8, 1 + r.below(3) as u8);
     let dict_n = 1 + r.below(4) as u8;
-    let n_dicts = r.below(4) as u8;
+    // 0..8 dictionaries (the membership mask is one byte); the larger counts less often
+    let n_dicts = if r.below(4) == 0 { 4 + r.below(5) as u8 } else { r.below(4) as u8 };
     let bias = r.below(201) as i16 - 100;
     let text_chars: Vec<char> = "abcdあい漢ア1x".chars().collect();
     // every 5th model: the invalid type letter 0x04 of some distributed KyTea models occurs in type n-grams (those n-grams
